@@ -1,4 +1,5 @@
 import RpycModel.Proto.HandlersLemmas
+import RpycModel.Proto.HandlersBridge
 /-
 C07 — a hostile peer cannot step outside what the service exposes.
 
@@ -77,7 +78,7 @@ theorem no_import (b : Ctx) (hi : b.cfg.importCustomExc = false) (fuel : Nat) (b
     (ht : Ev.touch t ∈ (run b fuel {} bursts).log) :
     t.kind ≠ .import_ ∧ (b.cfg.instantiateCustomExc = false → t.kind ≠ .modPresent ∧ t.kind ≠ .modattr) := by
   have := List.all_eq_true.mp (reachable_inv b fuel bursts).good _ ht
-  refine ⟨?_, fun hj => ⟨?_, ?_⟩⟩ <;> intro hk <;> simp [Ev.good, Touch.good, hk, hi, *] at this
+  refine ⟨?_, fun hj => ⟨?_, ?_⟩⟩ <;> intro hk <;> simp_all [Ev.good, Touch.good]
 
 /-- (3)+(4) for the generated default configuration -/
 theorem default_gates_closed :
@@ -158,6 +159,15 @@ theorem top_level_error_ends (b : Ctx) (f : Nat) (st : St) (w : Wire) (rest : Li
   rw [e]
   simp
 
+/-- the decision function these theorems are about is the one C06 characterises (`Rpyc.Policy.checkAttr`), and the
+import gate is the one C09 characterises (`Rpyc.Vinegar.importAttempted`): the layers are tied, not copies drifting apart -/
+theorem policy_and_loader_gates_are_the_layers (c : Config) (o : Bool) (has : PyStr → Bool) (n : PyStr) (op : Op)
+    (env : Vinegar.Env) (m : Val) :
+    checkAttr c has n op = Policy.checkAttr (Bridge.toPolicy c o) has n (Bridge.toOp op) ∧
+    (c.importCustomExc && !env.loaded m) = Vinegar.importAttempted (Bridge.toRecv c o) env m ∧
+    Bridge.toPolicy defaultConfig Gen.Policy.cfgInstantiateOldstyleExceptions = Policy.defaultConfig :=
+  ⟨Bridge.checkAttr_eq c o has n op, Bridge.importGate_eq c o env m, Bridge.defaultConfig_eq⟩
+
 /-- **(6) closed_world**: the handler table of the source is exactly the one the model dispatches on -/
 theorem closed_world : Gen.Handlers.handlerTable = modelledHandlers := by decide
 
@@ -166,5 +176,71 @@ theorem closed_world_params : Gen.Handlers.handlerParams = modelledParams := by 
 
 /-- the primitive touches in the handler bodies are the ones the model was transcribed from -/
 theorem closed_world_touches : Gen.Handlers.handlerTouches = modelledTouches := by decide
+
+/-! ### non-vacuity: concrete histories, evaluated by the kernel -/
+
+/-- an environment: the root's id pack (for GETROOT), "the type has no hook", "no exposed twin" (for `secret`), then for
+`val`: no hook, `hasattr(root, "exposed_val")` is true, `getattr` returns 7; finally `on_disconnect` returns -/
+def sampleEnv : Nat → Move
+  | 0 => .done (.ret (.imm (.tuple [.str [115, 118, 99], .int 10, .int 20])))
+  | 1 => .done (.ret (.imm .none))
+  | 2 => .done (.ret (.imm (.bool false)))
+  | 3 => .done (.ret (.imm .none))
+  | 4 => .done (.ret (.imm (.bool true)))
+  | 5 => .done (.ret (.imm (.int 7)))
+  | 6 => .done (.ret (.imm .none))
+  | _ => .done (.raise { cls := "Unexpected" })
+
+def sampleCtx : Ctx :=
+  { cfg := defaultConfig, root := 0, env := sampleEnv, strOf := fun _ => [], maxCb := 3, depth := 10,
+    await := fun st _ fut => (.raise (Exc.ofErr .notModelled), st, fut) }
+
+def rootId : Val := .tuple [.str [115, 118, 99], .int 10, .int 20]
+def getattrMsg (seq : Int) (idp : Val) (name : List Nat) : Wire :=
+  .val (.tuple [.int 1, .int seq, .tuple [.int 4, .tuple [.int 2, .tuple [.tuple [.int 3, idp], .tuple [.int 1, .str name]]]]])
+
+/-- GETROOT; GETATTR(root, "secret"); GETATTR with a forged id (instance id + 8); GETATTR(root, "val");
+a reply nobody asked for; a value that is not a message (ends the connection) -/
+def sampleMsgs : List (List Wire) :=
+  [[.val (.tuple [.int 1, .int 7, .tuple [.int 3, .tuple [.int 1, .tuple []]]])],
+   [getattrMsg 8 rootId [115, 101, 99, 114, 101, 116],
+    getattrMsg 9 (.tuple [.str [115, 118, 99], .int 10, .int 28]) [115, 101, 99, 114, 101, 116],
+    getattrMsg 10 rootId [118, 97, 108]],
+   [.val (.tuple [.int 2, .int 0, .tuple [.int 1, .int 5]]), .val (.int 5)]]
+
+def evTag : Ev → String
+  | .request _ => "request" | .touch t => (if t.kind == .probe then "probe" else if t.kind == .hookLookup then "hook?"
+      else if t.kind == .attr .get then "getattr" else if t.kind == .idpack then "idpack" else if t.kind == .cleanup then "cleanup" else "touch")
+  | .answer _ => "answer" | .reply _ _ => "reply" | .exc _ cls => "exc:" ++ cls | .ignored _ => "ignored"
+  | .ended cls => "ended:" ++ cls | .outReq _ _ _ => "req" | .cleaned => "cleaned" | _ => "other"
+
+/-- the whole history, event by event: `secret` is refused after one probe and no access; the forged id is refused with
+KeyError before anything is touched; `val` is served through its exposed twin; the stray reply is ignored; the
+non-message ends the connection (HANDLE_CLOSE to the peer, cleanup, `on_disconnect`) -/
+example : (run sampleCtx 20 {} sampleMsgs).log.map evTag =
+    ["request", "idpack", "answer", "reply",
+     "request", "hook?", "answer", "probe", "answer", "exc:AttributeError",
+     "request", "exc:KeyError",
+     "request", "hook?", "answer", "probe", "answer", "getattr", "answer", "reply",
+     "ignored", "ended:TypeError", "req", "cleaned", "cleanup", "answer"] := by decide +kernel
+
+/-- so the hypotheses of (1) are met by a real access: the one `getattr` of that history is on `exposed_val` -/
+example : (run sampleCtx 20 {} sampleMsgs).log.any (fun e => match e with
+    | .touch t => t.kind == .attr .get && t.name == [101, 120, 112, 111, 115, 101, 100, 95, 118, 97, 108]
+    | _ => false) = true := by decide +kernel
+
+/-- after the first two bursts the table holds exactly the root (count 0); the closed connection holds nothing -/
+example : (run sampleCtx 20 {} (sampleMsgs.take 2)).table.map (fun s => s.o) = [0]
+    ∧ (run sampleCtx 20 {} sampleMsgs).table.length = 0 := by decide +kernel
+
+/-- and every request of it was answered exactly once -/
+example : balL (run sampleCtx 20 {} sampleMsgs).log = 0 := outcome_total _ _ _
+
+/-- `AwaitOK`, the hypothesis of the per-request theorem, holds for the waiting function the runs use -/
+example (b : Ctx) (f : Nat) : AwaitOK (b.tie f) := awaitF_ok b f
+
+/-- cross-type equality in lookups is modelled: label `3.0`, handler `True`, message type `1+0j` -/
+example : pyEqNat (.float 0x4008000000000000) 3 = true ∧ pyEqNat (.bool true) 1 = true
+    ∧ pyEqNat (.complex 0x3FF0000000000000 0) 1 = true ∧ pyEqNat (.float 0x3FF8000000000000) 1 = false := by decide +kernel
 
 end Rpyc.Props.C07
